@@ -23,7 +23,7 @@ static PopRec record(const std::vector<cell_ptr>& L) {
 static std::vector<std::pair<std::string, PopRec>>* g_trace = nullptr;
 static std::vector<PopRec> execute(const Plan& pl, const V3& shift, RunResult& res, bool count) {
     std::vector<PopRec> out;
-    sim::RunConfig cfg = config_from(pl); cfg.step_budget = 800000000ull; cfg.clock_policy = sim::CLK_FROZEN_REGION;
+    sim::RunConfig cfg = config_from(pl); cfg.step_budget = (uint64_t)(8e8 * std::max(1.0, pl.geti("ncells", 1) * pl.geti("iters", 10) / 60.0)); cfg.clock_policy = sim::CLK_FROZEN_REGION;
     sim::clear_faults(); sim::begin_run(cfg);
     try {
         Tissue T = build_tissue(pl, shift);
